@@ -433,7 +433,7 @@ def run_common(ctx, pid):
     q = not ctx.thorough
     model_check(ctx, 'MC_FitSession', 'MC_FitSession.cfg', timeout=1800, coverage=False)
     ctx.notes['mc_constants'] = ('pool of 6 lattice sources (n_data 3,2,2,1,0,3; one with a certain upper limit), 4 models (one duplicated), '
-                                 'data files of 1..3 lines incl. short lines, n_data_min {2,3}, 4 output selectors, convolved yes/no, '
+                                 'data files of 1..3 lines incl. short lines, n_data_min 0..3, 4 output selectors, convolved yes/no, '
                                  '<= 2 later calls out of 3 kinds x 3 input forms x 5 selectors + filter_output x 2 forms x 2 criteria x 3 thresholds; VIEW hides the call history')
     hdr, behs = gen_behaviours(ctx, 400 if q else 4000)
     ctx.notes['behaviours_simulated'] = len(behs)
@@ -445,6 +445,7 @@ def run_common(ctx, pid):
     root = ctx.mkdtemp('sw')
     for col in pmap(lambda c: replay_chunk(c, hdr, root, ctx.seed, pid), chosen, chunks_per_proc=1):
         col.merge_into(ctx)
+    return hdr
 
 
 # ---- recorded sessions (code -> spec) ------------------------------------------------------
@@ -708,13 +709,133 @@ def protocol_replay(ctx):
         col.merge_into(ctx)
 
 
+def offlattice_chunk(seeds, root, hdr):
+    """FileFaithful with the OBJECT INTERFACE as the oracle for Fit(src), on lines the lattice cannot express: flag-1 points with a
+    zero / negative / NaN flux, -999 placeholders, huge and tiny values, any n_data_min and selector.  C10 is a statement about
+    every data line, not only about physically sensible ones: the file must hold, in input order, one record per line whose number
+    of flag-1/4 points reaches n_data_min, each equal (NaN-aware) to Fitter.fit + keep of the Source that line parses to."""
+    from sedfitter import fit
+    from sedfitter.fit_info import FitInfoFile
+    from sedfitter.source import Source
+    col = Collector()
+    w = SessionWorld(root, hdr)
+    try:
+        for sd in seeds:
+            rng = random.Random(sd)
+            nb = w.nb
+            lines = []
+            for li in range(rng.randint(1, 8)):
+                flags = [rng.choice([0, 1, 1, 1, 2, 3, 4, 9]) for _ in range(nb)]
+                vals = []
+                for f_ in flags:
+                    r = rng.random()
+                    if f_ == 4:
+                        flux, err = rng.choice([-3.5, -0.25, 0.0, 1.5]), rng.choice([0.1, 0.5])
+                    elif f_ in (2, 3):
+                        flux, err = rng.choice([0.5, 20.0, 3e3]), rng.choice([0.0, 0.9, 1.0])
+                    elif r < 0.25:
+                        flux, err = rng.choice([0.0, -1.0, -999.0, float('nan'), 1e-30, 1e30]), rng.choice([0.0, 1.0, -999.0])
+                    else:
+                        flux = 10.0 ** rng.uniform(-2, 4)
+                        err = flux * rng.choice([0.05, 0.3])
+                    vals += [repr(float(flux)), repr(float(err))]
+                lines.append(' '.join(['off%d_%d' % (sd % 1000, li), '1.0', '-2.0'] + [str(f_) for f_ in flags] + vals))
+            data = w.path('offdata')
+            with open(data, 'w') as fh:
+                fh.write('\n'.join(lines) + '\n')
+            nmin = rng.randint(0, 3)
+            sel = rng.choice([('A', 0), ('N', 2), ('N', 1), ('F', 3.0), ('C', 50.0)])
+            conv = rng.random() < 0.5
+            out = w.path('offfit')
+            want = []
+            for ln in lines:
+                s = Source.from_ascii(ln)
+                if s.n_data >= nmin:
+                    ref = w.fitter().fit(s)
+                    if not conv:
+                        ref.model_fluxes = None
+                    ref.keep(sel)
+                    want.append(ref)
+            desc = {'lines': lines, 'n_data_min': nmin, 'selector': list(sel), 'output_convolved': conv}
+            try:
+                with fw.quiet():
+                    fit(data, n_data_min=nmin, output=out, output_format=sel, output_convolved=conv, **w.fit_args())
+                got = list(FitInfoFile(out, 'r')) if want else []
+            except Exception as e:
+                if want:
+                    col.violation('C10:offlattice:raised:%s' % type(e).__name__, 'fit() / reading its output raised %r' % (e,), desc)
+                continue
+            col.replayed += 1
+            if [g.source.name for g in got] != [r_.source.name for r_ in want]:
+                col.violation('C10:offlattice:records', 'records for %r, eligible lines are %r' % ([g.source.name for g in got], [r_.source.name for r_ in want]), desc)
+            else:
+                for g, r_ in zip(got, want):
+                    if not same_info(g, r_):
+                        col.violation('C10:offlattice:record_differs_from_object_interface', 'record of %s: file %r vs object %r' % (g.source.name, fw.project_info(g), fw.project_info(r_)), desc)
+                        break
+    finally:
+        w.close()
+    return col
+
+
 def run_C10(ctx):
-    run_common(ctx, 'C10')
+    hdr = run_common(ctx, 'C10')
+    root = ctx.mkdtemp('off')
+    seeds = [ctx.seed * 7001 + i for i in range(200 if not ctx.thorough else 2000)]
+    for col in pmap(lambda c: offlattice_chunk(c, root, hdr), seeds):
+        col.merge_into(ctx)
     record_and_validate(ctx, 'C10', 8 if not ctx.thorough else 48, 8 if not ctx.thorough else 20)
     ctx.assumptions += ['runs that write no record are outside the property and not replayed',
                         'thresholds are chosen off every attained chi^2 (UnitOK assumption checked by TLC)']
 
 
+def split_all_stage(ctx, hdr):
+    """every pool source with a finite best chi^2, in one input, split by chi= and by cpd= at thresholds 7 units above and below EACH
+    source's own criterion value (spec: Good iff best / divisor < threshold, divisor 1 or n_data): any distortion of the criterion or
+    of the divisor flips the verdict of that source"""
+    from fractions import Fraction
+    from sedfitter.filter_output import filter_output
+    from sedfitter.fit_info import FitInfoFile
+    root = ctx.mkdtemp('splitall')
+    w = SessionWorld(root, hdr)
+    try:
+        sids = [sid for sid in range(1, len(hdr['pool']) + 1) if hdr['best'][sid - 1] >= 0 and hdr['nd'][sid - 1] >= 1]
+        recs = []
+        for k, sid in enumerate(sids):
+            info = w.fitter().fit(fw.make_source(hdr['pool'][sid - 1], name=w.src_name(sid, k)))
+            info.keep(('N', 2))
+            recs.append(info)
+        path = w.path('all')
+        fo = FitInfoFile(path, 'w')
+        for r in recs:
+            fo.write(r)
+        fo.close()
+        for crit in ('chi', 'cpd'):
+            for target in sids:
+                div = 1 if crit == 'chi' else hdr['nd'][target - 1]
+                for off in (7, -7):
+                    thr = Fraction(hdr['best'][target - 1], div) + off                  # in units of 1/Unit
+                    verdict = ['T' if Fraction(hdr['best'][sid - 1], 1 if crit == 'chi' else hdr['nd'][sid - 1]) < thr else 'F' for sid in sids]
+                    for form in ('path', 'list'):
+                        g, bd = w.path('g'), w.path('b')
+                        try:
+                            with fw.quiet():
+                                filter_output(path if form == 'path' else recs, output_good=g, output_bad=bd, **{crit: float(thr) / hdr['unit']})
+                        except Exception as e:
+                            ctx.violation('C18:split_raised:%s' % type(e).__name__, 'filter_output(%s=%r, %s input) raised %r' % (crit, float(thr) / hdr['unit'], form, e),
+                                          {'sources': sids, 'criterion': crit})
+                            continue
+                        ctx.replayed += 1
+                        bad = check_split(g, bd, recs, verdict)
+                        if bad:
+                            ctx.violation('C18:split_all', 'filter_output(%s=%r, %s input) on pool sources %r (n_data %r, best chi2 x Unit %r): %s'
+                                          % (crit, float(thr) / hdr['unit'], form, sids, [hdr['nd'][s_ - 1] for s_ in sids], [hdr['best'][s_ - 1] for s_ in sids], bad),
+                                          {'sources': sids, 'criterion': crit, 'threshold': float(thr) / hdr['unit'], 'expected': verdict})
+    finally:
+        w.close()
+
+
 def run_C18(ctx):
-    run_common(ctx, 'C18')
+    hdr = run_common(ctx, 'C18')
+    split_all_stage(ctx, hdr)
     record_and_validate(ctx, 'C18', 8 if not ctx.thorough else 48, 8 if not ctx.thorough else 20)
